@@ -24,6 +24,9 @@ using L_V4 = List<D<P, u8>, D<V, Trk>>;
 using L_V5 = List<D<P, u32>, D<P, sz, 8>, D<V, f32, 8>, D<P, sz, 8>, D<V, f32, 16>>;
 using L_V6 = List<D<P, u8>, D<V, Odd3>, D<P, u16, 2>>;
 using L_V7 = List<D<P, sz, 8>, D<V, Trk>, D<P, u8>>;
+// an over-aligned VaryingSize parameter in the middle: padding in front of the span even when it is empty
+using L_V8 = List<D<P, sz, 8>, D<V, f32, 16>, D<P, u8>>;
+using L_V9 = List<D<P, u8>, D<V, Trk, 8>, D<P, u8>>;
 // mixed
 using L_M1 = List<D<F, f32, 16>, D<P, u32>, D<P, sz, 8>, D<V, f32, 8>>;
 using L_M2 = List<D<F, Trk>, D<P, u8>, D<V, Trk>>;
